@@ -96,6 +96,18 @@ def optNever : Ty → Bool
   | .opt t => t == never || optNever t
   | _ => false
 
+/-- the shape of the known run-time/checker disagreement, possibly below covariant constructors:
+    an optional of `Never` on the sub side against `AnyResource` on the super side -/
+def optNeverVsAnyResource : Ty → Ty → Bool
+  | .opt t, .opt s => optNeverVsAnyResource t s || (optNever (.opt t) && (.opt s : Ty) == .prim "AnyResource")
+  | .opt t, s => optNever (.opt t) && s == .prim "AnyResource"
+  | .varArr t, .varArr s => optNeverVsAnyResource t s
+  | .constArr t _, .constArr s _ => optNeverVsAnyResource t s
+  | .dict k v, .dict k' v' => optNeverVsAnyResource k k' || optNeverVsAnyResource v v'
+  | .ref _ t, .ref _ s => optNeverVsAnyResource t s
+  | .cap t, .cap s => optNeverVsAnyResource t s
+  | _, _ => false
+
 def fieldOf (go : String) (key : String) : String :=
   match (go.splitOn " ").find? (fun f => f.startsWith (key ++ "=")) with
   | some f => (f.drop (key.length + 1)).toString
@@ -120,6 +132,8 @@ def judge (op : List String) (go : String) : Verdict :=
       else if !allSame is && optNever ta && tb == .prim "AnyResource" && is == "011" then
         .violation "runtime-optional-never-anyresource" "sema.IsSubType = interpreter.IsSubType = IsSubTypeOfSemaType" tags
       else if !allSame is then .violation "implementations-disagree" "sema.IsSubType = interpreter.IsSubType = IsSubTypeOfSemaType" tags
+      else if eq == "0" && chk == "001" && optNeverVsAnyResource ta tb then
+        .violation "runtime-optional-never-anyresource" "CheckSubTypeWithoutEquality = _gen (sema) = _gen (interpreter)" tags
       else if eq == "0" && !allSame chk then .violation "handwritten-generated-disagree" "CheckSubTypeWithoutEquality = _gen (sema) = _gen (interpreter)" tags
       else if eq != seq || rt != "1" then .violation "static-conversion" "sema -> static -> sema is the identity and preserves equality" tags
       else
